@@ -1,4 +1,7 @@
 import LyModel.Diff.Lemmas13Merge
+import LyModel.Diff.LemmasRevLit
+import LyModel.Diff.LemmasCancel
+import LyModel.Diff.LemmasMergeEmpty
 /-!
 # C13 — the 4 × 4 operation table of `lyd_diff_merge_*`, cell by cell, against the composition of the two applications
 
@@ -281,21 +284,141 @@ theorem merge_cell_apply {S : Schema} {fx : Fixes} (K : KeyOrder S) {o : MergeOp
         simp only [hred, ↓reduceIte, Option.some.injEq] at hcell ⊢
         exact ⟨L, ha1, ha2, rfl, hfin L hgL (fun _ _ _ => rfl) hcell⟩
 
+/-! ## computed diffs satisfy the hypotheses of the tree-level law -/
+
+/-- The two diffs `lyd_diff_siblings` computes for well-formed `A`, `B`, `C` chain exactly: `D1 = diff(A, B)` is an exact diff
+for `A` (Props/C13 `diff_exact`), applying it gives a good tree `B'` with the observation of `B`, and `D2 = diff(B, C)` is an
+exact diff for that `B'` (exactness does not look at what `LYD_NEW` / metadata / container flags: `exactDiff_congr_norm`).
+These are the hypotheses under which `merge_apply_partial` (OPEN, below) is stated. -/
+theorem diff_chain_exact (S : Schema) (fx : Fixes) (A B C : List DNode) (hA : wfForest S A = true) (hB : wfForest S B = true)
+    (hC : wfForest S C = true) (hk : KeysDistinguished S (A ++ B)) :
+    exactDiff S A (diff S true A B) = true ∧
+    ∃ B', apply S A (diff S true A B) fx = .ok B' ∧ goodT S B' = true ∧ dataEqL true B' B = true ∧
+      exactDiff S B' (diff S true B C) = true := by
+  obtain ⟨B', h1, h2, h3, h4⟩ := Diff.diff_chain_exact S fx A B C hA hB hC hk
+  exact ⟨exactDiff_diff S A B hA hB, B', h1, h2, (dataEqL_iff_norm B' B).mpr h3, h4⟩
+
+/-! ## merge_cancel at tree level -/
+
+/-- **merge_cancel**: merging the reversed diff of an exact diff `D` (in the metadata layout `lyd_diff_add` writes, `stdL`) into
+`D` leaves the empty diff — `lyd_diff_merge_all(D, lyd_diff_reverse_all(D)) = {}` — for trees of any depth: every reversed node
+finds its original, the cell of the table turns it into `none`, the recursion (created / deleted subtrees with inherited
+operations included) empties its children, `lyd_diff_is_redundant` drops it.  Both settings of `LYD_DIFF_MERGE_DEFAULTS`; no
+hypothesis on the `sort` callbacks (`KeyOrder` is not used): keyed lists are covered. -/
+theorem merge_cancel {S : Schema} {o : MergeOpts} {A D : List DNode} (hD : exactDiff S A D = true) (hstd : stdL D = true) :
+    ∃ R, reverse S D = .ok R ∧ mergeDiff o S D R = .ok [] :=
+  merge_reverse_empty hD hstd
+
+/-- … unconditionally for every computed diff of well-formed trees -/
+theorem merge_cancel_diff {S : Schema} {o : MergeOpts} {A B : List DNode} (hA : wfForest S A = true) (hB : wfForest S B = true) :
+    ∃ R, reverse S (diff S true A B) = .ok R ∧ mergeDiff o S (diff S true A B) R = .ok [] :=
+  merge_reverse_empty (exactDiff_diff S A B hA hB) (stdL_diff S A B hA hB)
+
+/-- a keyed list with nested content, a leaf-list and leaves: `l[1]` changed inside, `l[2]` deleted, `l[3]` created -/
+def mcS : Schema := { modName := "mc", nodes := [
+  { depth := 0, kind := .list, name := "l", nkeys := 1 },
+  { depth := 1, kind := .leaf, name := "k", iskey := true },
+  { depth := 1, kind := .leaf, name := "v", dflts := [bs "d"] },
+  { depth := 1, kind := .leaflist, name := "ll" },
+  { depth := 0, kind := .leaf, name := "top" } ] }
+def mcL (k : String) (ks : List DNode) : DNode := .inner 0 {} [] (.term 1 {} [] (bs k) :: ks)
+def mcA : List DNode := [ mcL "1" [.term 2 { dflt := true } [] (bs "d"), .term 3 {} [] (bs "a")], mcL "2" [.term 2 {} [] (bs "x")],
+  .term 4 {} [] (bs "t") ]
+def mcB : List DNode := [ mcL "1" [.term 2 {} [] (bs "e"), .term 3 {} [] (bs "b")], mcL "3" [.term 3 {} [] (bs "c")] ]
+
+example : wfForest mcS mcA = true ∧ wfForest mcS mcB = true ∧ (diff mcS true mcA mcB).length = 4 := by decide +kernel
+example : ∃ R, reverse mcS (diff mcS true mcA mcB) = .ok R ∧
+    mergeDiff { defaults := true } mcS (diff mcS true mcA mcB) R = .ok [] :=
+  merge_cancel_diff (by decide +kernel) (by decide +kernel)
+
+/-! ## three families of triples for which the tree-level law `merge_apply` is proved -/
+
+/-- `A → A → C` (the first diff is empty — how a caller starts accumulating diffs, `lyd_diff_merge_all(&diff, D)` with
+`diff == NULL`): the merged diff is `D = diff(A, C)` with every top-level `yang:operation` re-written at the end of the
+metadata (`cop`), in the same order (the diff is ordered by schema node: `Diff.diff_sorted`; nothing is redundant:
+`Diff.diff_top_nonredundant`), and `mergeApply` gives `C`.  No hypothesis on the `sort` callbacks beyond C06's. -/
+theorem merge_apply_first_empty (S : Schema) (o : MergeOpts) (fx : Fixes) (A C : List DNode) (hA : wfForest S A = true)
+    (hC : wfForest S C = true) (hk : KeysDistinguished S (A ++ C)) :
+    mergeDiff o S (diff S true A A) (diff S true A C) = .ok ((diff S true A C).map cop) ∧
+      ∃ C', mergeApply S true o A A C fx = .ok C' ∧ dataEqL true C' C = true := by
+  obtain ⟨C', h1, _, h3, _⟩ := Diff.diff_chain_exact S fx A C C hA hC hC hk
+  have hself : diff S true A A = [] := by
+    have := diffFull_self S true A hA
+    simp [diff, this]
+  obtain ⟨hm, ha⟩ := merge_into_empty S o fx A C hA hC
+  rw [hself]
+  refine ⟨hm, C', ?_, (dataEqL_iff_norm C' C).mpr h3⟩
+  simp [mergeApply, hself, hm, Except.bind, applyD, ha, h1]
+
+
+/-- `A → B → B` (the second diff is empty): `mergeApply` gives `B` -/
+theorem merge_apply_second_empty (S : Schema) (o : MergeOpts) (fx : Fixes) (A B : List DNode) (hA : wfForest S A = true)
+    (hB : wfForest S B = true) (hk : KeysDistinguished S (A ++ B)) :
+    ∃ C', mergeApply S true o A B B fx = .ok C' ∧ dataEqL true C' B = true := by
+  obtain ⟨B', h1, _, h3, _⟩ := Diff.diff_chain_exact S fx A B B hA hB hB hk
+  have hself : diff S true B B = [] := by
+    have := diffFull_self S true B hB
+    simp [diff, this]
+  refine ⟨B', ?_, (dataEqL_iff_norm B' B).mpr h3⟩
+  simp [mergeApply, hself, mergeDiff, mergeKids_nil, Except.bind, applyD, h1]
+
+/-- `A → B → A` with the reversed diff as the second one: the merged diff is empty (`merge_cancel`) and applying it to `A`
+gives what the two diffs give one after the other (`reverse_apply_diff`) -/
+theorem merge_apply_reverse {S : Schema} {o : MergeOpts} {fx : Fixes} (K : KeyOrder S) {A B : List DNode}
+    (hA : wfForest S A = true) (hB : wfForest S B = true) :
+    ∃ B' R M C' A', apply S A (diff S true A B) fx = .ok B' ∧ reverse S (diff S true A B) = .ok R ∧
+      apply S B' R fx = .ok A' ∧ mergeDiff o S (diff S true A B) R = .ok M ∧ apply S A M fx = .ok C' ∧
+      dataEqL true C' A' = true := by
+  obtain ⟨B', R, A', h1, _, h2, _, h3, h4⟩ :=
+    reverse_roundtrip (fx := fx) K (goodT_of_wfForest S A hA) (exactDiff_diff S A B hA hB)
+  obtain ⟨R', hR', hM⟩ := merge_cancel_diff (o := o) hA hB
+  rw [h2] at hR'
+  have : R' = R := (Except.ok.inj hR').symm
+  subst this
+  refine ⟨B', R', [], A, A', h1, h2, h3, hM, rfl, ?_⟩
+  rw [dataEqL_iff_norm]
+  exact h4.symm
+
+example : ∃ C', mergeApply mcS true { defaults := true } mcA mcA mcB = .ok C' ∧ dataEqL true C' mcB = true :=
+  (merge_apply_first_empty mcS _ {} mcA mcB (by decide +kernel) (by decide +kernel)
+    (keysDistinguished_of_check _ _ (by decide +kernel))).2
+
+example : ∃ C', mergeApply mcS true {} mcA mcB mcB = .ok C' ∧ dataEqL true C' mcB = true :=
+  merge_apply_second_empty mcS {} {} mcA mcB (by decide +kernel) (by decide +kernel)
+    (keysDistinguished_of_check _ _ (by decide +kernel))
+
 -- OPEN: `merge_apply_partial` — for good trees and exact diffs `D1` (for `A`, leading to `B`) and `D2` (for `B`, leading to `C`):
---   ∃ M C', mergeDiff o S D1 D2 = .ok M ∧ apply S A M fx = .ok C' ∧ dataEqL true C' C = true
---   (under `o.defaults = true → Generated.Diff13.mergeDfltNeedsDeletedDflt = true`), and `merge_cancel` at tree level
---   (`mergeDiff o S D (reverse D) = .ok []`).  Proved here: every leaf cell (`merge_cell_*`, `merge_cancel_leaf`), the link to
---   `applyNode` (`merge_cell_apply`), the unreachability of the rejected cells, and the agreement of the table with the source
---   (Props/C13.lean).  Not proved: the recursion of `mergeR` through inner nodes (created / deleted subtrees with inherited
---   operations, `placeBack`, the order of the merged siblings).  Evidence instead: `merge3` agrees with lyd_diff_merge_all token
---   for token, and the law holds on the implementation for every generated triple outside the F18 cells, including all 7 844
---   option × triple combinations of the exhaustive tiny state spaces (tools/checks/c13.py).
+--   ∃ M C', mergeDiff o S D1 D2 = .ok M ∧ apply S A M fx = .ok C' ∧ dataEqL true C' C = true.
+--   (`merge_cancel` at tree level and the triples `A → A → C`, `A → B → B`, `A → B → A` are proved: above.)
+--   Hypotheses the tree statement needs, cell by cell (read off the leaf-cell theorems above): (delete, create) —
+--   `o.defaults = true → Generated.Diff13.mergeDfltNeedsDeletedDflt = true` (finding F18(b)); (none, replace) — the value the
+--   second diff sets is not default-flagged (`hnd` of `merge_cell_none_replace`: true for validated data, where a leaf that carries
+--   the flag has its one schema default value; NOT implied by `goodT` / `wfForest`, which allow the flag on any value — over those
+--   trees the statement needs this as an extra hypothesis on `C`); all other accepted cells: none.  The six rejected cells are
+--   unreachable (`merge_rejected_unreachable`).  `KeyOrder S` (needed by `merge_cell_apply`) restricts all of this to schemas
+--   without keyed lists (Props/C13 `keyOrder_no_keyed_list`).
+--   Proved: every leaf cell (`merge_cell_*`, `merge_cancel_leaf`), the link to `applyNode` (`merge_cell_apply`), the
+--   unreachability of the rejected cells, the agreement of the table with the source (Props/C13.lean), and that computed diffs
+--   meet the hypotheses (`diff_chain_exact`), and the whole recursion of `mergeR` for the pairs (node, reversed node)
+--   (`merge_cancel`: Diff/LemmasCancel.lean has the machinery — `mergeStep_cancel`, `mergeKids_cancel_map`, the created / deleted
+--   subtrees with inherited operations `del_cancel` / `cre_cancel`).  Not proved: the recursion of `mergeR` through the sibling list and through inner
+--   nodes — (i) a forward specification of `apply` for exact diffs (the result as a function of the per-instance effects, so that
+--   the order of the diff nodes and `insertBySchema` / `placeBack` do not matter; `Lemmas13Rev.listRev` has it only implicitly),
+--   (ii) the cells for nodes whose operation is INHERITED (children of created / deleted subtrees: `mergeDelete` / `mergeCreate`
+--   make the operation of the children explicit first), (iii) leaf-list and container cells.  Evidence instead: `merge3` agrees
+--   with lyd_diff_merge_all token for token, and the law holds on the implementation for every generated triple outside the F18
+--   cells, including all 7 844 option × triple combinations of the exhaustive tiny state spaces (tools/checks/c13.py).
 
 /-! ### the hypotheses of the cell theorems are satisfiable and the effects are not trivial -/
 
 def cS : Schema := { modName := "cell", nodes := [ { depth := 0, kind := .leaf, name := "f", dflts := [bs "d"] } ] }
 
 example : cS.isKind 0 .leaf = true := by decide +kernel
+example : ∃ B' R M C' A', apply cS [.term 0 {} [] (bs "x")] (diff cS true [.term 0 {} [] (bs "x")] [.term 0 {} [] (bs "y")]) = .ok B' ∧
+    reverse cS (diff cS true [.term 0 {} [] (bs "x")] [.term 0 {} [] (bs "y")]) = .ok R ∧ apply cS B' R = .ok A' ∧
+    mergeDiff {} cS (diff cS true [.term 0 {} [] (bs "x")] [.term 0 {} [] (bs "y")]) R = .ok M ∧
+    apply cS [.term 0 {} [] (bs "x")] M = .ok C' ∧ dataEqL true C' A' = true :=
+  merge_apply_reverse (keyOrder_of_stringLL (by decide +kernel)) (by decide +kernel) (by decide +kernel)
 -- x -> y -> z is one replace x -> z; x -> y -> x leaves nothing
 example : (cellEff cS {} .replace (nReplace 0 {} (bs "y") false (bs "x")) .replace (nReplace 0 {} (bs "z") false (bs "y"))
     (some (.term 0 {} [] (bs "x")))).isSome = true := by decide +kernel
